@@ -617,8 +617,10 @@ class ExprMixin:
         base = self.eval(node.value, fr)
         if node.attr == 'native' and isinstance(base, Sym) and base.op == 'call' and base.args and 'load' in show(base.args[0]):
             # asn1crypto decodes lazily: .native of the object returned by load() walks the whole structure and raises
-            # ValueError (malformed / short encoding) or KeyError (ENUMERATED value outside the schema map)
-            self.risk(fr, 'ext:.native', ('builtins.ValueError', 'builtins.KeyError'), base, node)
+            # ValueError (malformed / short encoding) or KeyError (ENUMERATED value outside the schema map); an element that does
+            # not fit the schema at its position ends in TypeError (an optional field of another tag expected: core.py Sequence
+            # _parse_children) or AttributeError (a universal type without a native value: core.py Sequence.native) - external.json
+            self.risk(fr, 'ext:.native', ('builtins.ValueError', 'builtins.KeyError', 'builtins.TypeError', 'builtins.AttributeError'), base, node)
         if node.attr not in EAGER_ATTRIBUTES and lazily_decoded(base):
             # objects of the dependency built from DER (PublicKeyX509.from_der -> asn1crypto Certificate.load) decode their
             # members on first access: reading a property of one walks into the undecoded part and raises ValueError there
